@@ -157,20 +157,266 @@ class SetOccC(_SupercellConcrete, SetOcc):
                     yield s2, (ind, c)
 
 
-C28_CONTRACTS = [SetOccC]
+# ---------------------------------------------------------------------------------------------
+def listed(co, i, cmax=None):
+    """site i appears in some list c < cmax"""
+    cmax = co.len if cmax is None else cmax
+    return exists(0, cmax, lambda c: exists(0, co.lenof(c), lambda k: co.at(c, k) == i, 'ls_k'), 'ls_c')
+
+
+class Sane(Contract):
+    """__sane__ returns True exactly when (a) every listed site has the occupation of its list and (b) every
+    site that is not listed is vacant.  (It does NOT check duplicates: reorder's use of it needs a counting
+    argument on top, see Reorder.)"""
+    relpath, qualname = 'onsager/supercell.py', 'Supercell.__sane__'
+    self_shape = {'occ': 'seq_int', 'chemorder': 'seq2_int'}
+    params = {}
+    modifies = ()
+    result_shape = 'bool'
+
+    def pre(self, s):
+        occ, co = s.self.occ, s.self.chemorder
+        return And(occ.len >= 0, co.len >= 0, lambda: forall(0, co.len, lambda c: co.lenof(c) >= 0),
+                   lambda: forall2(0, co.len, lambda c: 0, lambda c: co.lenof(c),
+                                   lambda c, k: And(co.at(c, k) >= 0, co.at(c, k) < occ.len)))
+
+    @staticmethod
+    def spec(occ, co):
+        return And(forall2(0, co.len, lambda c: 0, lambda c: co.lenof(c), lambda c, k: occ[co.at(c, k)] == c),
+                   lambda: forall(0, occ.len, lambda i: Implies(Not(listed(co, i)), lambda: occ[i] == -1)))
+
+    def post(self, old, new, result):
+        return {'result-is-spec': Iff(result, self.spec(old.self.occ, old.self.chemorder))}
+
+    def inv_outer(cur, k, old):
+        occ, co, occset = cur.self.occ, cur.self.chemorder, cur.v['occset']
+        return And(forall2(0, k, lambda c: 0, lambda c: co.lenof(c), lambda c, j: occ[co.at(c, j)] == c),
+                   lambda: forall(0, occ.len, lambda i: Iff(occset.has(i), listed(co, i, k))),
+                   lambda: forall_int(lambda i: Implies(occset.has(i), And(i >= 0, i < occ.len))))
+
+    def inv_inner(cur, k, old):
+        occ, co, occset, c = cur.self.occ, cur.self.chemorder, cur.v['occset'], cur.v['c']
+        return And(c >= 0, c < co.len,
+                   forall2(0, c, lambda cc: 0, lambda cc: co.lenof(cc), lambda cc, j: occ[co.at(cc, j)] == cc),
+                   lambda: forall(0, k, lambda j: occ[co.at(c, j)] == c),
+                   lambda: forall(0, occ.len, lambda i: Iff(occset.has(i), Or(listed(co, i, c), exists(0, k, lambda j: co.at(c, j) == i)))),
+                   lambda: forall_int(lambda i: Implies(occset.has(i), And(i >= 0, i < occ.len))))
+
+    def inv_scan(cur, k, old):
+        occ, co, occset = cur.self.occ, cur.self.chemorder, cur.v['occset']
+        return And(forall2(0, co.len, lambda c: 0, lambda c: co.lenof(c), lambda c, j: occ[co.at(c, j)] == c),
+                   lambda: forall(0, occ.len, lambda i: Iff(occset.has(i), listed(co, i))),
+                   lambda: forall(0, k, lambda i: Implies(Not(occset.has(i)), lambda: occ[i] == -1)))
+
+    loops = {0: inv_outer, 1: inv_inner, 2: inv_scan}
+
+
+def is_perm(m, inv, L):
+    """m is a permutation of range(L); inv is its inverse (ghost witness of surjectivity)"""
+    return And(m.len == L, inv.len == L,
+               lambda: forall(0, L, lambda i: And(m[i] >= 0, m[i] < L, inv[i] >= 0, inv[i] < L)),
+               lambda: forall(0, L, lambda i: And(inv[m[i]] == i, m[inv[i]] == i)))
+
+
+class IMul(_SupercellConcrete, Contract):
+    """sup *= g : occ and chemorder are carried through the site permutation g.indexmap[0]."""
+    relpath, qualname = 'onsager/supercell.py', 'Supercell.__imul__'
+    self_shape = SELF
+    params = {'other': {'indexmap': ('tuple', ['seq_int'])}}
+    ghost_params = {'g_inv': 'seq_int'}
+    consts = {'isinstance(other, crystal.GroupOp)': True}
+    modifies = ('occ', 'chemorder', 'g_pos')
+
+    def pre(self, s):
+        return And(WFall(s.self), lambda: is_perm(s.v['other'].indexmap[0], s.v['g_inv'], s.self.occ.len))
+
+    def ghost_exit(self, old, new):
+        o, inv = old.self, old.v['g_inv']
+        return {'g_pos': (o.occ.len, lambda j: o.g_pos[inv[j]])}
+
+    def post(self, old, new, result):
+        o, n = old.self, new.self
+        m = old.v['other'].indexmap[0]
+        return {
+            **{'WF-' + k: v for k, v in WF(n).items()},
+            'occ-permuted': And(n.occ.len == o.occ.len, lambda: forall(0, o.occ.len, lambda i: n.occ[m[i]] == o.occ[i])),
+            'chemorder-permuted': And(n.chemorder.len == o.chemorder.len,
+                                      lambda: forall(0, o.chemorder.len, lambda c: n.chemorder.lenof(c) == o.chemorder.lenof(c)),
+                                      lambda: forall2(0, o.chemorder.len, lambda c: 0, lambda c: o.chemorder.lenof(c),
+                                                      lambda c, k: n.chemorder.at(c, k) == m[o.chemorder.at(c, k)])),
+        }
+
+    def inv0(cur, k, old):
+        o = old.self
+        m, inv, gocc = old.v['other'].indexmap[0], old.v['g_inv'], cur.v['gocc']
+        return And(gocc.len == o.occ.len,
+                   seq_eq(cur.self.occ, o.occ), seq2_eq(cur.self.chemorder, o.chemorder), seq_eq(cur.self.g_pos, o.g_pos),
+                   lambda: forall(0, o.occ.len, lambda i: gocc[i] == ite(inv[i] < k, lambda: o.occ[inv[i]], lambda: o.occ[i])))
+
+    loops = {0: inv0}
+
+    # concrete side
+    def ghost_params_concrete(self, obj, args):
+        m = list(args[0].indexmap[0])
+        inv = [m.index(i) if i in m else -1 for i in range(len(m))]
+        return {'g_inv': CSeq(inv)}
+
+    def build(self, conc):
+        from onsager import crystal
+        sup = self.build_self(conc.self)
+        if sup is None: return None, None
+        m = conc.v['other'].indexmap[0].xs
+        g = crystal.GroupOp(rot=np.eye(3, dtype=int), trans=np.zeros(3), cartrot=np.eye(3), indexmap=(tuple(m),))
+        return sup, (g,)
+
+    def concrete_states(self, rng, tier):
+        from onsager import crystal
+        for sup in self.small_supercells(rng, tier):
+            L = len(sup.occ)
+            perms = list(itertools.permutations(range(L)))
+            for m in (perms if L <= 3 else rng.sample(perms, 6)):
+                g = crystal.GroupOp(rot=np.eye(3, dtype=int), trans=np.zeros(3), cartrot=np.eye(3), indexmap=(tuple(m),))
+                yield sup.copy(), (g,)
+
+
+def WF_ex(s):
+    """WF with the 'listed' clause stated existentially (equivalent to WF for some value of the ghost g_pos)"""
+    occ, co = s.occ, s.chemorder
+    d = dict(WF(s))
+    d['occupied-sites-are-listed'] = forall(0, occ.len, lambda i: Implies(occ[i] >= 0, lambda: exists(
+        0, co.lenof(occ[i]), lambda k: co.at(occ[i], k) == i, 'wfx')), 'wfx_i')
+    return d
+
+
+class SaneC(_SupercellConcrete, Sane):
+    def build(self, conc):
+        sup = real_supercell(1, 1, max(1, conc.self.occ.len))
+        if sup is None or conc.self.occ.len == 0: return None, None
+        sup.occ = np.array(conc.self.occ.xs, dtype=int); sup.chemorder = [list(r) for r in conc.self.chemorder.xss]
+        return sup, ()
+
+    def ghost_concrete(self, obj): return {}
+
+    def concrete_states(self, rng, tier):
+        for sup in self.small_supercells(rng, tier):
+            yield sup.copy(), ()
+            # and corrupted states: wrong entry, missing entry, duplicate entry
+            for _ in range(3):
+                s2 = sup.copy(); L = len(s2.occ)
+                kind = rng.randrange(3)
+                c = rng.randrange(s2.Nchem)
+                if kind == 0: s2.chemorder[c].append(rng.randrange(L))
+                elif kind == 1 and s2.chemorder[c]: s2.chemorder[c].pop()
+                else: s2.occ[rng.randrange(L)] = rng.randrange(-1, s2.Nchem)
+                yield s2, ()
+
+
+class Reorder(_SupercellConcrete, Contract):
+    """reorder(mapping): newchemorder[c][i] = chemorder[c][mapping[c][i]]; ValueError (state unchanged) unless the
+    result is consistent.  Precondition derived from the code: one map per species, each at least as long as its
+    list, entries valid positions (otherwise IndexError / negative wrap-around -- not part of the property)."""
+    relpath, qualname = 'onsager/supercell.py', 'Supercell.reorder'
+    self_shape = SELF
+    params = {'mapping': 'seq2_int'}
+    modifies = ('chemorder', 'g_pos')
+    callees = {'__sane__': Sane()}
+    bounded_only = ('post:WF-no-duplicates', 'must-raise-ValueError-when-specified', 'raises-ValueError-only-when-specified')
+
+    def pre(self, s):
+        co, mp = s.self.chemorder, s.v['mapping']
+        return And(WFall(s.self), mp.len == co.len,
+                   lambda: forall(0, co.len, lambda c: mp.lenof(c) >= co.lenof(c)),
+                   lambda: forall2(0, co.len, lambda c: 0, lambda c: co.lenof(c),
+                                   lambda c, i: And(mp.at(c, i) >= 0, mp.at(c, i) < co.lenof(c))))
+
+    @staticmethod
+    def proper(s):
+        """every map is injective on its list (a permutation, given the range precondition)"""
+        co, mp = s.self.chemorder, s.v['mapping']
+        return forall(0, co.len, lambda c: forall2(0, co.lenof(c), lambda i: i + 1, lambda i: co.lenof(c),
+                                                   lambda i, j: mp.at(c, i) != mp.at(c, j)))
+
+    raises = {'ValueError': lambda s: Not(Reorder.proper(s))}
+
+    def post(self, old, new, result):
+        # the exit value of the ghost g_pos is not definable as a term without the inverse maps, so the
+        # postcondition states 'listed' existentially (WF_ex)
+        o, n = old.self, new.self
+        mp = old.v['mapping']
+        return {
+            **{'WF-' + k: v for k, v in WF_ex(n).items()},
+            'occ-unchanged': seq_eq(n.occ, o.occ),
+            'lists-reordered': And(n.chemorder.len == o.chemorder.len,
+                                   lambda: forall(0, o.chemorder.len, lambda c: n.chemorder.lenof(c) == o.chemorder.lenof(c)),
+                                   lambda: forall2(0, o.chemorder.len, lambda c: 0, lambda c: o.chemorder.lenof(c),
+                                                   lambda c, i: n.chemorder.at(c, i) == o.chemorder.at(c, mp.at(c, i)))),
+        }
+
+    def build(self, conc):
+        sup = self.build_self(conc.self)
+        return (sup, ([list(r) for r in conc.v['mapping'].xss],)) if sup is not None else (None, None)
+
+    def concrete_states(self, rng, tier):
+        for sup in self.small_supercells(rng, tier):
+            lens = [len(l) for l in sup.chemorder]
+            if max(lens, default=0) == 0: continue
+            for _ in range(4):
+                mp = [[rng.randrange(n) for _ in range(n)] if rng.random() < 0.5 else rng.sample(range(n), n) for n in lens]
+                yield sup.copy(), (mp,)
+
+
+C28_CONTRACTS = [SetOccC, IMul, SaneC, Reorder]
 ASSUMPTIONS = [
     'python ints are mathematical integers; numpy integer arrays do not overflow',
-    'inner lists of chemorder are distinct objects (no aliasing between rows)',
-    'subscripts are required to be in [0, len): negative wrap-around indexing is treated as an error',
-    'set iteration order is arbitrary, dict iteration is insertion ordered',
+    'inner lists of chemorder are distinct objects (no aliasing between rows): checked syntactically -- every assignment to self.chemorder in class Supercell must be a list comprehension / fresh list / the saved previous value',
+    'subscripts are required to be in [0, len): negative wrap-around indexing is treated as an error the code must not rely on',
+    'reorder: the exit value of the ghost field g_pos is chosen (the listed-clause of WF is stated existentially there); WF with the ghost follows by choice',
 ]
 TRUSTED = [
-    'pyvc encoder model of CPython list.index/pop/append, set add/in, numpy 1-D integer array load/store/copy',
-    'z3 4.x/5.x (python API) and /usr/bin/cvc5 on the queries posed',
+    'pyvc encoder model of CPython list.index/pop/append, set add/in, numpy 1-D integer array load/store/copy, list comprehension as map, zip of equal-length lists',
+    'z3 (python API) and /usr/bin/cvc5 on the queries posed',
     'ast extraction of the function bodies from the current working tree (docstrings/comments/decorators dropped)',
 ]
-GAPS = []
+GAPS = [
+    'Supercell.fillperiodic, __setitem__, __mul__/__rmul__, copy, POSCAR, POSCAR_occ are outside the encoder subset (dict of tuple keys, generator next(), two-generator comprehension, string formatting/parsing, deepcopy): they are covered only by run-time contracts over bounded histories on real objects (level B, not proved). fillperiodic/POSCAR_occ mutate state only through setocc (proved), which the history check exercises.',
+    'reorder: the no-duplicates clause and the raises-iff-not-a-permutation clauses need a counting (pigeonhole) argument; they are decided on the finite instance (all lists of length <= 3) and labelled S.',
+]
 
 
 def c28_extra(rep, tier):
-    pass
+    """syntactic freshness obligation + bounded history exploration on real objects"""
+    import ast, time, multiprocessing as mp
+    from vf import extract
+    from vf.common import Ob, SEED
+    from contracts import supercell_hist as H
+    # (1) every assignment to self.chemorder is a fresh list (no aliasing between rows / with a caller's list)
+    t = time.time(); bad = []
+    for fname, node in extract.class_assignments('onsager/supercell.py', 'Supercell', 'chemorder'):
+        val = node.value
+        vals = val.elts if isinstance(val, ast.Tuple) else [val]
+        for v in vals:
+            if isinstance(v, (ast.ListComp, ast.List)): continue
+            if isinstance(v, ast.Name) and v.id in ('oldorder', 'neworder', 'gorder'): continue
+            if isinstance(v, ast.Attribute) and v.attr == 'chemorder': continue
+            bad.append('%s line %d: %s' % (fname, node.lineno, ast.unparse(node)[:80]))
+    rep.add(Ob('Supercell::chemorder-assignments-are-fresh-lists', 'P', 'fail' if bad else 'ok', 'ast-frame', time.time() - t,
+               '; '.join(bad), witness={'replayed': False, 'signature': 'chemorder-alias'} if bad else None,
+               function='onsager/supercell.py::Supercell'))
+    # (2) histories
+    cfgs = H.configs(tier)
+    args = [(label, i, tier, SEED) for i, (label, _) in enumerate(cfgs)]
+    ctx = mp.get_context('fork')
+    t = time.time()
+    with ctx.Pool(min(16, len(args))) as pool:
+        res = pool.map(H.run_config, args)
+    for (label, _), (n, nsig, sample, viol) in zip(cfgs, res):
+        rep.b_evals += n
+        for k in range(nsig): rep.b_cases.add((label, k))
+        if sample: rep.sample(sample)
+        name = 'Supercell::history-contracts[%s]' % label
+        if viol:
+            rep.add(Ob(name, 'B', 'fail', 'rtc', time.time() - t, 'clause %s violated: %s' % (viol['clause'], viol['detail']),
+                       witness=dict(viol, replayed=True, signature=viol['clause']), function='onsager/supercell.py::Supercell'))
+        else:
+            rep.add(Ob(name, 'B', 'ok', 'rtc', time.time() - t, '%d operations checked, %d distinct (operation, occupation) cases' % (n, nsig),
+                       function='onsager/supercell.py::Supercell'))
